@@ -418,7 +418,20 @@ def run_surface(desc, ctx):
         return
     if len(F) >= 2:
         ctx.nontrivial(_key(desc))
-    ok, sm = ctx.call("construct_surface", build.surface, V, F, desc["vrows"], desc["irows"], monitor="domain")
+    rh = random.Random(desc["seed"] ^ 0x77aa)
+    if rh.random() < 0.4 and not desc.get("single"):
+        # history: the mesh object was measured earlier in another shape (persistent face normals / areas, default names), then deformed in
+        # place to the geometry V: samples and normals must be those of the geometry at the time of the call
+        import mouette as M
+        ctx.cls("surface:history:measured_then_deformed")
+        A0 = np.array([[1.0, rh.uniform(-0.8, 0.8), 0.0], [0.0, 1.0, rh.uniform(-0.8, 0.8)], [rh.uniform(-0.8, 0.8), 0.0, 1.0]]) * np.array([1.0, 2.5, 0.4])
+        ok, sm = ctx.call("construct_surface", build.surface, V @ A0.T + 1.0, F, desc["vrows"], desc["irows"], monitor="domain")
+        ctx.call("attributes.face_normals", M.attributes.face_normals, sm, monitor="domain")
+        ctx.call("attributes.face_area", M.attributes.face_area, sm, monitor="domain")
+        for i in range(len(V)):
+            sm.vertices[i] = M.Vec(V[i].copy())
+    else:
+        ok, sm = ctx.call("construct_surface", build.surface, V, F, desc["vrows"], desc["irows"], monitor="domain")
     ctx.cls("surface:faces_%s" % ("1" if len(F) == 1 else ("2-20" if len(F) <= 20 else ">20")))
     ok, res = ctx.call("sample_surface" + (":single_face" if len(F) == 1 else ""), sampling.sample_surface, sm, n,
                        return_point_cloud=cloud, return_normals=normals, monitor="domain")
